@@ -23,7 +23,7 @@ func stdHooks() *Hooks {
 }
 
 func init() {
-	drivers["C01"] = &driver{cases: tierN(320, 6000), run: runC01}
+	drivers["C01"] = &driver{cases: tierN(320, 30000), run: runC01}
 }
 
 func runC01(k int, rng *Rng) CaseResult {
